@@ -58,7 +58,7 @@ pub(crate) fn c08_case(rep: &mut Report, seed: u64, idx: u64, tier: &str) {
         rng.range(0, 600)
     } else { match rng.below(12) {
         0 => 0,
-        1 => 1,
+        1 => *rng.pick(&[1usize, 1, 4095, 4096, 4097, 8191, 8192, 8193, 65535, 65536, 65537]),
         2..=6 => rng.range(2, 5000),
         7..=9 => rng.range(5000, 200_000),
         _ => {
